@@ -1426,7 +1426,7 @@ class Interp:
                     env[p] = it.ev(d, {})
                 else:
                     env[p] = unk(f"missing argument {p}")
-        key = (callee.key, tuple(sorted((k, fmt(v)) for k, v in env.items())))
+        key = (callee.key, tuple(sorted((k, fmt(v), repr(v.sw)) for k, v in env.items())))
         if key in self.c.memo:
             return self.c.memo[key]
         self.c.stack.append(callee.key)
